@@ -457,9 +457,14 @@ func (c *c14Ctx) evaluate(rq *c14Req) (verdict c14Verdict, resp srvfix.Response)
 		addressed = rq.Task.Table
 	}
 
-	// a table name in double quotes is the quoted spelling of that name
-	if len(addressed) > 2 && strings.HasPrefix(addressed, `"`) && strings.HasSuffix(addressed, `"`) && !strings.Contains(addressed[1:len(addressed)-1], `"`) {
-		addressed = addressed[1 : len(addressed)-1]
+	// a table name in double quotes is the quoted spelling of that name; SQLite also reads a single-quoted string as an
+	// identifier where only an identifier can stand (UPDATE 't' SET …), which some paths hand through
+	for _, qc := range []string{`"`, `'`} {
+		if len(addressed) > 2 && strings.HasPrefix(addressed, qc) && strings.HasSuffix(addressed, qc) && !strings.Contains(addressed[1:len(addressed)-1], qc) {
+			addressed = addressed[1 : len(addressed)-1]
+
+			break
+		}
 	}
 
 	// SQLite's schema prefix: main.t is t
@@ -2151,7 +2156,8 @@ func TestC14(t *testing.T) {
 			nv := c14Variants[pos]
 			lo, hi := (pi+ai)%nv, (pi+ai)%nv+1
 
-			if vh.Tier() == "thorough" {
+			// the transaction tasks treat the table name differently per operation: always all of them
+			if vh.Tier() == "thorough" || pos == "tx.table" {
 				lo, hi = 0, nv
 			}
 
